@@ -21,8 +21,9 @@ ASSUMPTIONS = [
     "when two @namespace rules bind one prefix to different URIs the statement does not say which wins: the mapping oracle V1 is silent for such rule lists",
     "unprefixed type selectors (V6): after a change of the default namespace a restart may resolve them to the default in force, to the default that was in force when they were written (meaning kept), or to 'any namespace'; resolving to the empty namespace or to another URI is a violation",
     "outcomes the statement does not fix (re-binding a prefix to a URI that already has one) are observed: rejected => unchanged, accepted => invariants hold",
+    "a sheet parsed from a text is compared with what the text's @namespace rules mean (last declaration of a URI wins); only for texts whose prefixes are all distinct (then: the last declaration of a URI wins); a prefix declared twice inside one text is input handling the statement does not fix (the parser ignores the repetition; the statement does not say)",
 ]
-PROBES = ["rebind_prefix", "delete_used_namespace_rejected", "undeclared_prefix_rejected", "rule_moved_between_sheets", "default_namespace_changed", "restart", "duplicate_uri_rules", "selector_in_media", "empty_bodied_rule", "rule_detached_and_kept", "detached_rule_attached_again"]
+PROBES = ["rebind_prefix", "delete_used_namespace_rejected", "undeclared_prefix_rejected", "rule_moved_between_sheets", "default_namespace_changed", "restart", "duplicate_uri_rules", "selector_in_media", "empty_bodied_rule", "rule_detached_and_kept", "detached_rule_attached_again", "two_superseded_declarations_in_one_text"]
 
 ANY = -1
 PREFIXES = ["p", "q", "r", ""]
@@ -36,7 +37,7 @@ def config(rs, run, tier):
     sheets = []
     for _ in range(r.choice([1, 1, 2])):
         ns = []
-        for _ in range(c.choice([0, 1, 2, 3])):
+        for _ in range(c.choice([0, 1, 2, 3, 3, 4, 5])):
             p = c.choice(PREFIXES)
             u = c.choice(URIS)
             ns.append(f'@namespace {p} "{u}";' if p else f'@namespace "{u}";')
@@ -90,13 +91,39 @@ class World:
         self.stats = collections.Counter()
         self.log = simlog.install()
         cu.log.raiseExceptions = False
-        self.sheets = [cu.parseString(t) for t in cfg["sheets"]]
+        self.sheets = []
+        for t in cfg["sheets"]:
+            k, sh = lib.call(cu.parseString, t)
+            if k != "ok":
+                raise Viol("V1_mapping_equals_rules", f"init:parse-raises:{lib.ename(sh)}", f"parsing {t!r} (log mode) raised {sh!r}")
+            self.sheets.append(sh)
         cu.log.raiseExceptions = cfg["raise"]
         self.soft = []
+        for si, (s_, t_) in enumerate(zip(self.sheets, cfg["sheets"])):
+            self.source_check(s_, t_, "init")
         self.created_map = {}  # id(rule) -> namespace mapping under which its selectors were written
         self.detached = []  # (rule object, meant, namespace mapping of its sheet when it was taken out)
         self.tracked = []  # (rule object, [[(kind, uri|ANY|''|'DEFAULT', local, default_at_creation)] per selector])
         self.check("init")
+
+    def source_check(self, sheet, text, where):
+        """a sheet just parsed from `text`: its mapping is what the @namespace rules of the text mean"""
+        import re
+
+        pairs = [(p, u) for p, u in re.findall(r'@namespace\s*(\w*)\s*"([^"]*)"\s*;', text)]
+        if len({p_ for p_, _ in pairs}) < len(pairs):
+            # a prefix declared more than once inside one text (re-bound or repeated): what the parser makes of
+            # that is input handling the statement does not fix - silent.  With distinct prefixes the only
+            # rule that applies is "the last declaration of a URI wins, one prefix per URI".
+            return
+        ref = {u_: p_ for p_, u_ in pairs}
+        ref = {p_: u_ for u_, p_ in ref.items()}
+        self.stats["oracle"] += 1
+        k, got = lib.call(lambda: dict(sheet.namespaces.items()))
+        if k != "ok" or got != ref:
+            raise Viol("V1_mapping_equals_rules", f"{where}:source-mapping", f"{where}: a sheet parsed from {text!r} has namespaces {got!r}; its @namespace rules {pairs} mean {ref}")
+        if len(pairs) - len(ref) >= 2:
+            self.stats["probe:two_superseded_declarations_in_one_text"] += 1
 
     # ------------------------------------------------------------------ invariants
     def check(self, where):
@@ -362,6 +389,8 @@ class World:
                 self.tracked = [(r, m) for r, m in self.tracked if r is not rule]
         elif k == "sheet_text":
             kk, v = lib.call(setattr, s, "cssText", op["text"])
+            if kk == "ok" and before[0] != self.snapshot(s)[0]:
+                self.source_check(s, op["text"], "sheet_text")
             if kk == "ok":
                 self.tracked = [(r, m) for r, m in self.tracked if r.parentStyleSheet is not None and r.parentStyleSheet is not s]
         elif k == "restart":
@@ -441,7 +470,10 @@ class World:
                     muri = mapping.get(prefix)
                     if muri is None:
                         undeclared = True
-                if kind == "attr":
+                if kind == "not":
+                    t += f":not({pre}{name})"
+                    m.append(("negation-type-selector", muri, name, default))
+                elif kind == "attr":
                     t += f"[{pre}{name}]"
                     if prefix is not None:
                         m.append(("attribute-selector", muri, name, default))
@@ -469,6 +501,8 @@ def gen_sel(r):
         parts.append((kind, prefix, r.choice(LOCALS)))
         if r.random() < 0.3:
             parts.append(("attr", r.choice([None, "p", "q", "*", ""]), r.choice(LOCALS)))
+        elif r.random() < 0.25:
+            parts.append(("not", r.choice(["p", "q", "r", "*", "", "zz"]), r.choice(LOCALS)))  # a type selector inside :not()
     return parts
 
 
